@@ -121,7 +121,8 @@ def check(ck):
     if not (mk and stores and basei):
         raise AnalysisError("anchor vanished: default pool creation / store / base constructor in PooledJSONRPCServer.__init__")
     gd = [gi.nodes[i] for i in di[mk[0][0].id] if gi.nodes[i].kind == "branch"]
-    okg = len(gd) == 1 and ((dump(gd[0].test) == "thread_pool is None" and gd[0].polarity) or (dump(gd[0].test) == "thread_pool is not None" and not gd[0].polarity))
+    gtests = q.guards_of(gi, mk[0][0], di)          # (a flag local `default = thread_pool is None` is read through)
+    okg = len(gtests) == 1 and ((dump(gtests[0][0]) == "thread_pool is None" and gtests[0][1]) or (dump(gtests[0][0]) == "thread_pool is not None" and not gtests[0][1]))
     ck.require(okg, "C12.5", "%s: default pool only when none is given" % q.fn(fi),
                "`if thread_pool is None`", "the default pool is created under %s" % [dump(b.test) for b in gd], q.loc(fi, mk[0][0]))
     pool_var = mk[0][0].ast.targets[0].id if isinstance(mk[0][0].ast, ast.Assign) and isinstance(mk[0][0].ast.targets[0], ast.Name) else None
